@@ -227,7 +227,22 @@ class Model:
 
     def _bind_method(self, c: ClassInfo, name: str, f: FuncInfo, forced, where: str, how: str):
         if f.cls is not c or forced:
-            nf = FuncInfo(f.module, c, f.node)
+            node = f.node
+            first = node.args.args[0].arg if node.args.args else None
+            if forced is None and f.cls is None and first not in (None, "self") and not any(
+                    isinstance(x, ast.Name) and x.id == "self" for x in ast.walk(node)):
+                # a module-level function bound as a method: its first parameter IS the receiver, whatever it is called
+                import copy as _copy
+                node = _copy.deepcopy(node)
+                for x in ast.walk(node):
+                    if isinstance(x, ast.Name) and x.id == first:
+                        x.id = "self"
+                    elif isinstance(x, ast.arg) and x.arg == first:
+                        x.arg = "self"
+                    for ch in ast.iter_child_nodes(x):
+                        ch._parent = x  # type: ignore[attr-defined]
+                node._parent = getattr(f.node, "_parent", None)  # type: ignore[attr-defined]
+            nf = FuncInfo(f.module, c, node)
             if forced == "staticmethod":
                 nf.is_static = True
             elif forced == "classmethod":
@@ -256,7 +271,18 @@ class Model:
                     for a in st.names:
                         order.setdefault(a.asname or a.name.split(".")[0], []).append(("import", st))
             for name, evs in order.items():
-                if not any(k == "def" for k, _ in evs) or evs[-1][0] == "def":
+                if not any(k == "def" for k, _ in evs):
+                    # a pure alias: `old_name = _new_impl` (no def of old_name at all)
+                    kind, st = evs[-1]
+                    if kind == "assign" and isinstance(st, (ast.Assign, ast.AnnAssign)) and st.value is not None \
+                            and not (isinstance(st, ast.Assign) and isinstance(st.targets[0], (ast.Tuple, ast.List))):
+                        got = self._unwrap_callable(m, None, st.value)
+                        if got is not None and got[1] is None:
+                            m.funcs[name] = got[0]
+                            m.consts.pop(name, None)
+                            self.followed.append(f"{m.relpath}:{st.lineno}: `{name}` is an alias of `{got[0].qualname}`")
+                    continue
+                if evs[-1][0] == "def":
                     continue
                 kind, st = evs[-1]
                 where = f"{m.relpath}:{st.lineno}"
@@ -281,6 +307,12 @@ class Model:
                                 f"`{name}` is defined by a def / class statement and rebound afterwards to `{ast.unparse(val)[:60] if val is not None else '?'}`, "
                                 f"which the analysis cannot follow: calls of `{name}` no longer run the definition that was analysed")
             for c in m.classes.values():
+                for name in [x for x in c.consts if x not in c.methods]:
+                    got = self._unwrap_callable(m, c, c.consts[name])
+                    if got is not None:
+                        st = next((x for x in c.node.body if isinstance(x, ast.Assign) and any(isinstance(t, ast.Name) and t.id == name for t in x.targets)), c.node)
+                        self._bind_method(c, name, got[0], got[1], f"{m.relpath}:{st.lineno}", "an alias in the class body of")
+                        c.consts.pop(name, None)
                 for name in list(c.methods):
                     if name not in c.consts:
                         continue
@@ -508,6 +540,11 @@ class Model:
             _cover.anchor(f)
             return f
         m = self.modules.get(self.pkg + "." + head) or self.modules.get(head)
+        if m is not None and tail not in m.funcs:
+            r = self.resolve_name(m, tail)      # moved to another module and re-exported under the old name
+            if isinstance(r, FuncInfo):
+                _cover.anchor(r)
+                return r
         if m is None or tail not in m.funcs:
             raise AnalysisError(f"anchor function {qual} not found")
         _cover.anchor(m.funcs[tail])
